@@ -4,6 +4,7 @@
   fold <dialect>            : what `normalize_name` does after `name[:provider.max_name_len]`: "keep" | "lower" | "upper"
                               (any other body -> the module is reported as not translatable)
   namedForeignKeys <dialect>: `named_foreign_keys` of the dialect's schema class (DBSchema default True)
+  indexFlagUpdates          : the statements of the `for column in columns:` loop of DBIndex.__init__ (is_pk / is_pk_part / is_unique flags)
   templates                 : the literal fragments of get_default_index_name / get_default_fk_name (`pk_%s`, `unq_%(tname)s__%(cnames)s`, ...)
                               and the separators of the `join`s, the `_2` / `_%d` suffixes of core.py
 
@@ -89,6 +90,12 @@ def collect(repo):
     info['m2mColumnSuffixes'] = sorted(set(_strings(_func(_cls(core_tree, 'Set'), 'get_m2m_columns'))) & {'_2'})
     gm = _func(_cls(core_tree, 'Database'), 'generate_mapping')
     info['tableSuffixTemplates'] = sorted(set(s for s in _strings(gm) if s.startswith('_%')))
+    # the flag updates of DBIndex.__init__ (`for column in columns:` body), as source text
+    init = _func(_cls(schema_tree, 'DBIndex'), '__init__')
+    loops = [n for n in ast.walk(init) if isinstance(n, ast.For) and ast.unparse(n.target) == 'column' and
+             any(isinstance(st, ast.Assign) for st in n.body)]
+    if len(loops) != 1: raise ValueError('DBIndex.__init__: the column-flag loop was not found')
+    info['indexFlagUpdates'] = [ast.unparse(st) for st in loops[0].body]
     return info
 
 
@@ -102,7 +109,7 @@ def render(info):
     table('maxNameLen', 'Nat', lambda d: str(info['maxNameLen'][d]))
     table('fold', 'String', lambda d: lean_str(info['fold'][d]))
     table('namedForeignKeys', 'Bool', lambda d: 'true' if info['namedForeignKeys'][d] else 'false')
-    for k in ('indexTemplates', 'fkTemplates', 'columnTemplates', 'm2mColumnSuffixes', 'tableSuffixTemplates'):
+    for k in ('indexTemplates', 'fkTemplates', 'columnTemplates', 'm2mColumnSuffixes', 'tableSuffixTemplates', 'indexFlagUpdates'):
         L.append('def %s : List String := [%s]' % (k, ', '.join(lean_str(x) for x in info[k]))); L.append('')
     L.append('end PonyVerif.Gen.SchemaParams'); L.append('')
     return '\n'.join(L)
